@@ -170,9 +170,53 @@ def r2_bytes_untransformed(P, rep, ctx):
     cip = F(ctx, cipfi)
     st = [(i, v) for p_ in ("self._files[-1][self._gpath]", "self._files[self._last_idx][self._gpath]") for i, v, b in cip.stores(p_)]
     rep.check(bool(st) and all(cip.x(v) == "self[()]" for i, v in st), "C17.R2", cipfi.qual, "copy_into_patch transfers the full value", cipfi.loc(), construct="copy_into_patch", message="copy_into_patch does not copy self[()]")
+    # a dataset value is read from the resolved container on every call: no memo between the record and the caller (a cached
+    # value outlives `del` of an enclosing group / discard_patch and is served for the bytes embedded at the same path later)
+    gi = P.func(f"{O}.IH5Dataset.__getitem__")
+    gf = F(ctx, gi)
+    k_ = gi.params[1]
+    rv = sorted({gf.x_at(i, v) for i, v in gf.returns() if v is not None})
+    want = (f"self._files[self._cidx][self._gpath][{k_}]",)
+    rep.check(bool(rv) and all(r in want for r in rv), "C17.R2", gi.qual, "IH5Dataset.__getitem__ returns the value read from the resolved container, on every path", gi.loc(), construct=f"returns {rv}"[:120],
+              message=f"IH5Dataset.__getitem__ returns {rv}: a value that does not come from reading the container on this call (memoised per path / container index) survives deletion of an enclosing group or a discarded patch and is served for different bytes stored at the same path later")
+
+
+def _facts_stored_as_given(P, rep, ctx):
+    """FileMeta / its schema.org bases: the attached facts (sha256, contentSize, filename, encodingFormat) are stored as
+    given.  A pydantic validator on one of them may refuse a value but returns its argument unchanged on every path (a
+    'canonicalising' validator -- int(digest, 16) round trip, case folding, prefix stripping -- changes the digest that
+    readers compare with the hash of the embedded bytes)."""
+    FACTS = {"sha256", "contentSize", "filename", "encodingFormat"}
+    n = 0
+    for cq in ("schema.common.rocrate.FileMeta", "schema.common.schemaorg.MediaObject", "schema.common.schemaorg.CreativeWork", "schema.common.schemaorg.Thing"):
+        try:
+            c = P.cls(cq)
+        except Exception:
+            if cq.endswith("FileMeta"):
+                raise AnalysisError(f"C17.R3: class {cq} not found")
+            continue
+        n += 1
+        for name, m in c.methods.items():
+            for d in getattr(m.node, "decorator_list", []):
+                dn = norm(d.func) if isinstance(d, ast.Call) else norm(d)
+                if dn.split(".")[-1] not in ("validator", "root_validator"):
+                    continue
+                fields = {a.value for a in getattr(d, "args", []) if isinstance(a, ast.Constant) and isinstance(a.value, str)}
+                root = dn.split(".")[-1] == "root_validator"
+                if not root and not (fields & FACTS or "*" in fields):
+                    continue
+                if len(m.params) < 2:
+                    continue
+                vp = m.params[1]
+                rets = [norm(x.value) if x.value is not None else "None" for x in walk_local(m.node) if isinstance(x, ast.Return)]
+                rebinds = [norm(x) for x in walk_local(m.node) if isinstance(x, (ast.Assign, ast.AugAssign, ast.AnnAssign)) and any(isinstance(t, ast.Name) and t.id == vp or (root and isinstance(t, ast.Subscript) and norm(t.value) == vp) for _, t in store_targets(x))]
+                rep.check(bool(rets) and all(r == vp for r in rets) and not rebinds, "C17.R3", m.qual, "a validator on the attached file facts returns its argument unchanged", m.loc(), construct=f"{name} returns {sorted(set(rets))}"[:120],
+                          message=f"validator {m.qual} on {sorted(fields & FACTS) or 'the whole model'} returns {sorted(set(rets))}{' after ' + rebinds[0] if rebinds else ''}: the stored sha256 / size is no longer the value that was attached (e.g. a digest re-formatted through int() loses its leading zeros)")
+    rep.check(n >= 1, "C17.R3", "schema.common.rocrate.FileMeta", "file-fact validators inspected", "", construct="FileMeta class chain", message="FileMeta not found")
 
 
 def r3_harvested_facts(P, rep, ctx):
+    _facts_stored_as_given(P, rep, ctx)
     fi = P.func("harvester.common.FileMetaHarvester.run")
     f = F(ctx, fi)
     PATH = "self.args.filepath"
